@@ -37,7 +37,7 @@ def main():
                     rel = os.path.relpath(os.path.join(root, f), demo)
                     os.makedirs(os.path.dirname(os.path.join(wt, rel)) or wt, exist_ok=True)
                     shutil.copy(os.path.join(root, f), os.path.join(wt, rel))
-            rc, ov = sh(["/root/work/seedtools/mkoverlay.sh", wt], "/")
+            rc, ov = sh([os.path.join(VERIF, "tools", "mkoverlay.sh"), wt], "/")
             ov = ov.strip().splitlines()[-1]
             cmd = meta["demo_cmd"]
             cmd = re.sub(r"/tmp/seed_\w+", wt, cmd)
@@ -47,7 +47,7 @@ def main():
             rc, o = sh(["git", "apply", "--whitespace=nowarn", os.path.join(src, "patch.diff")], wt)
             if rc != 0:
                 print(sid, "patch does not apply:", o); rc_all = 1; continue
-            sh(["/root/work/seedtools/mkoverlay.sh", wt], "/")
+            sh([os.path.join(VERIF, "tools", "mkoverlay.sh"), wt], "/")
             rc1, o1 = sh(cmd, wt, shell=True)
             # packages touched by the patch
             pk = set()
